@@ -272,7 +272,21 @@ def logspace_rule(ctx):
 
     from ..astutil import const_number
 
-    p = ctx.p
+    res, n = _logspace(ctx.p)
+    if n < 40:
+        raise AnalysisIncomplete("NUM-LOGSPACE: %d log calls examined (< 40 confirmed by hand)" % n)
+    return res
+
+
+def logspace_findings(p):
+    return _logspace(p)[0].findings
+
+
+def _logspace(p):
+    import ast
+
+    from ..astutil import const_number
+
     res = RuleResult("NUM-LOGSPACE", "no log is taken of a product reduction (prod / cumprod / det): log-dets and log-densities are sums of logs")
     n = 0
     for mi in p.modules.values():
@@ -323,6 +337,7 @@ def logspace_rule(ctx):
                     continue  # Python-level constants
                 n += 1
                 a = peel(arg)
+                flagged = False
                 if isinstance(a, ast.Call):
                     f = a.func
                     last = f.attr if isinstance(f, ast.Attribute) else (f.id if isinstance(f, ast.Name) else "")
@@ -333,11 +348,11 @@ def logspace_rule(ctx):
                             if isinstance(par, (ast.ClassDef, ast.FunctionDef)):
                                 qual = par.name + "." + qual
                             par = getattr(par, "_parent", None)
+                        flagged = True
                         res.fail(Finding("NUM-LOGSPACE", mi, qual, c, "log of `%s`: the product of many moderate factors under-/overflows in float32 although the sum of their logs is finite (0.1 ** 50 == 0.0 in float32)" % norm_text(a)[:60]))
-    if n < 40:
-        raise AnalysisIncomplete("NUM-LOGSPACE: %d log calls examined (< 40 confirmed by hand)" % n)
-    res.ok("%d tensor log calls examined, none of a product reduction" % n)
-    return res
+                if not flagged:
+                    res.ok("%s:%s log(%s)" % (mi.relpath, fn.name, norm_text(a)[:50]))
+    return res, n
 
 
 def c19_rules(ctx):
@@ -366,8 +381,8 @@ register(
     ".type(torch.Tensor), tensor-valued plain attributes; I integer/bool) with torch's promotion order I < D < M. DT-MIX: a "
     "definitely-D operand next to a definitely-M operand in a same-dtype-only position (@, F.linear, matmul, mm, mv, ger, "
     "lu_solve, addmv) is reported at the operation with the call path. DT-RESULT: a returned tensor whose provenance set is {D} "
-    "does not carry the dtype of the inputs. ONLY the last sentence of C19 ('results carry the dtype of the inputs', and a "
-    "double model evaluates without a dtype error) is decided; float32/float64 agreement and finiteness are numerical analysis "
-    "and are declined.",
+    "does not carry the dtype of the inputs. ONLY these two clauses of C19 are decided: the last sentence ('results carry the dtype "
+    "of the inputs', and a double model evaluates without a dtype error) and the log-space necessary condition; float32/float64 "
+    "agreement and finiteness in general are numerical analysis and are declined.",
     [A_NET, A_UMNN, T_OPS, "torch type promotion rules; inputs and parameters share one floating dtype"],
 )
